@@ -120,5 +120,11 @@ def zipReplace (s1 s2 : Stack) (it : ArrIter) (x y : Nat) (m : Mem) :
   let r := Arr.zipReplace s1.v s2.v it x y m
   (r.1, r.2.1, { s1 with v := r.2.2.1 }, { s2 with v := r.2.2.2.1 }, r.2.2.2.2)
 
+/-- `cc_stack_zip_iter_replace` with the same stack on both sides: one array state threaded through both
+replacements (`Arr.zipReplace1`) -/
+def zipReplace1 (s : Stack) (it : ArrIter) (x y : Nat) (m : Mem) : Stat × Option (Nat × Nat) × Stack × Mem :=
+  let r := Arr.zipReplace1 s.v it x y m
+  (r.1, r.2.1, { s with v := r.2.2.1 }, r.2.2.2)
+
 end Stack
 end CC
